@@ -324,29 +324,18 @@ def modelFor (sn : Option SnapLayout) (idx : Index) (bound : Nat) (mode : String
     (showIds idx (plan.runSeg sn (Plan.width plan)), plan)
   | none => (showIds idx (plan.run bound (Plan.width plan)), plan)
 
-/-- the behaviours the driver accepts as "the implementation as modelled": the pinned tree, or a tree on
-which some of the four reported defects have been repaired (each repair = the documented meaning on that
-shape). Returns the first variant that reproduces `impl`, with its name. -/
-def chooseVariant (sn : Option SnapLayout) (idx : Index) (bound : Nat) (mode : String) (q : Query) (outcome : Outcome) (impl : String) :
+/-- the searcher tree of the CURRENT code: the two early `MatchNoneSearcher` returns (`Query.norm`), the
+`minSearcher` wrap of the unadorned rewrite (`keepMin`), fuzziness 0 as an exact term search -/
+def chooseVariant (sn : Option SnapLayout) (idx : Index) (bound : Nat) (mode : String) (q : Query) (_outcome : Outcome) (_impl : String) :
     String × Plan × String :=
-  let modelFor := modelFor sn
-  let pinned := if outcome == .panic then ("panic", Plan.leaf .postings []) else modelFor idx bound mode false q
-  if pinned.1 == impl then (pinned.1, pinned.2, "") else
-  let combos : List (Bool × Bool × Bool) :=
-    [(true, false, false), (false, true, false), (false, false, true), (true, true, false), (true, false, true),
-     (false, true, true), (true, true, true)]
-  let tries := combos.filterMap fun (tr, mws, km) =>
-    if km && mode != "none" then none else
-    let r := modelFor idx bound mode km (repairQ tr mws q)
-    if r.1 == impl then some (r.1, r.2, "repaired" ++ (if tr then "-termrange" else "") ++ (if mws then "-minwithoutshould" else "") ++
-      (if km then "-minkept" else "") ++ (if outcome == .panic then "-fuzzy0" else "")) else none
-  let tries := if outcome == .panic then
-      (let r := modelFor idx bound mode false q
-       if r.1 == impl then [(r.1, r.2, "repaired-fuzzy0")] else []) ++ tries
-    else tries
-  match tries with
-  | t :: _ => t
-  | [] => (pinned.1, pinned.2, "")
+  let r := modelFor sn idx bound mode true q.norm
+  (r.1, r.2, "")
+
+/-- does the query hold a fuzzy clause with fuzziness 0 (the shape of the repaired finding `fuzziness-0-panics`)? -/
+partial def hasFuzzy0 : SExp → Bool
+  | .list [.atom "fz", .atom _, .atom _, .atom fuzz, .atom _, .list _] => fuzz == "0"
+  | .list [.atom "b", .atom _, .list ms, .list ss, .list ns] => (ms ++ ss ++ ns).any hasFuzzy0
+  | _ => false
 
 def runQuery (st : DState) (mode : String) (e : SExp) (impl0 : String) : String :=
   -- "<ids> !fresh=<ids>": the harness found that a history-free reference reader answers differently
@@ -380,7 +369,7 @@ def runQuery (st : DState) (mode : String) (e : SExp) (impl0 : String) : String 
       let br := " br=" ++ ",".intercalate (kinds ++ (if sn.isSome then ["seg-machine"] else ["no-layout"]) ++
                   (if agree then [] else ["MODEL-LEAVES-DISAGREE"]) ++ (if q.WF then [] else ["not-wf"]) ++
                   (if outcome == .panic then ["expect-panic"] else []) ++ (if variant.isEmpty then [] else [variant]))
-      let plan0 := compile idx q
+      let plan0 := compile idx q.norm
       if !agree then
         "model-leaves-disagree" ++ sep ++ "bad:model-abstract-and-segment-leaves-disagree" ++ br
       else if !plan0.okB bound (Plan.width plan0) then
@@ -388,7 +377,7 @@ def runQuery (st : DState) (mode : String) (e : SExp) (impl0 : String) : String 
         model ++ sep ++ "bad:assumption-plan-okB" ++ br
       else if impl == spec then
         model ++ sep ++ "ok" ++ br
-      else if impl == "panic" && outcome == .panic then
+      else if impl == "panic" && hasFuzzy0 e then
         model ++ sep ++ "bad:fuzziness-0-panics" ++ br
       else if idx.any (fun e => geoNear e.2 q) then
         impl ++ sep ++ "na" ++ br ++ ",geo-near-edge"
@@ -398,10 +387,12 @@ def runQuery (st : DState) (mode : String) (e : SExp) (impl0 : String) : String 
         let missed := diffList specIds implIds
         let extra := diffList implIds specIds
         let dup := implIds.length != implIds.eraseDups.length
+        -- classification against the behaviour BEFORE the repairs (no early MatchNone, Min() lost)
         let scored := (modelFor idx bound "all" false q).1
+        let oldModel := (modelFor idx bound mode false q).1
         let why :=
           if impl == "err" || impl == "panic" then "bad:" ++ impl ++ "-instead-of-result"
-          else if mode == "none" && scored == spec && (impl == model || explainedByLostMin idx q impl (showIds idx)) then
+          else if mode == "none" && scored == spec && (impl == oldModel || explainedByLostMin idx q impl (showIds idx)) then
             "bad:minshould-lost-under-score-none"
           else if hasIrregularRange q && impl == scored then "bad:termrange-inverted-returns-max-term"
           else if hasMinWithoutShould q && impl == scored then "bad:minshould-without-should-clauses"
